@@ -3,15 +3,23 @@
 set -e
 cd /verif
 br=$1
+export MERGE_PROPS="$2"   # optional: comma-separated property ids whose known-finding entries are taken from the branch
 git merge --no-commit "$br" || true
 git show "$br":known_findings.json > /tmp/kf_b.json 2>/dev/null || echo '{"findings":[],"fixed":[]}' > /tmp/kf_b.json
 git show HEAD:known_findings.json > /tmp/kf_a.json
 python3 - <<'PY'
 import json
 a=json.load(open('/tmp/kf_a.json')); b=json.load(open('/tmp/kf_b.json'))
+import os
+props=set(filter(None,os.environ.get('MERGE_PROPS','').split(',')))
 ids={f['id'] for f in a['findings']}
+bids={f['id'] for f in b.get('findings',[])}
+# entries of the branch's own properties: the branch version wins (edited keys, removed entries)
+a['findings']=[f for f in a['findings'] if not (f['property'] in props and f['id'] not in bids)]
 for f in b.get('findings',[]):
     if f['id'] not in ids: a['findings'].append(f)
+    elif f['property'] in props:
+        a['findings']=[f if g['id']==f['id'] else g for g in a['findings']]
 for s in b.get('fixed',[]):
     if s not in a['fixed']: a['fixed'].append(s)
 json.dump(a,open('/verif/known_findings.json','w'),indent=1)
